@@ -50,12 +50,15 @@ MEDIA = ["text/html", "text/plain", "text/*", "*/*", "application/json", "applic
          # parameter values over the token alphabet, and quoted ones whose content looks like more parameters
          "text/plain;charset=Shift_JIS", 'text/html;title="a;q=0"', 'application/json;profile="urn:x;version=2"',
          # a parameter whose value is the empty string is a parameter all the same
-         'text/plain;format=""', 'image/png;x=""']
+         'text/plain;format=""', 'image/png;x=""',
+         # a comma inside a quoted parameter value is part of the value, not the end of the range
+         'text/plain;format="fixed,flowed"', 'text/html;title="a, text/plain;q=1"', 'application/json;profile="a,b";v=1']
 OFF_M = ["text/html", "text/plain", "application/json", "image/png", "application/xml",
          "text/html;level=1", "text/html; version=2; level=1", "text/plain;delsp=yes;format=flowed",
          # optional whitespace before the ';' of a parameter (RFC 9110 5.6.6)
          "text/html ;level=1", "text/plain ; format=flowed ; delsp=yes",
-         "text/plain;charset=Shift_JIS", 'text/html;title="a;q=0"', 'application/json; profile="urn:x;version=2"']
+         "text/plain;charset=Shift_JIS", 'text/html;title="a;q=0"', 'application/json; profile="urn:x;version=2"',
+         'text/plain; format="fixed,flowed"', 'application/json;v=1;profile="a,b"']
 
 
 def split_params(r):
